@@ -12,6 +12,8 @@ LEVEL = {
  "C02": ("exploration", "Allocator ledger (layout-exact free, red zones, poison+quarantine, per-op address-range check of every handle), ASan, Miri and valgrind observe the same generated histories incl. out-of-contract arguments, in debug and release, with even/odd buffer addresses. A dead shard (SIGSEGV etc.) counts as a violation. Sanitizers only see what the workload reaches.", "§4 C02"),
  "C03": ("exploration", "Ledger balance at the end of every history after dropping survivors in enumerated/random orders, refcount conservation at every quiescent point (H2), instrumented owners (as_ref/drop counters, drop timing), LSan and Miri leak checks.", "§4 C03"),
  "C04": ("exploration", "Region monitor: after every op of BytesMut-centred histories all [ptr,ptr+cap) regions are checked against each other, against live Bytes and against the ledger's blocks; reserve/try_reclaim postconditions with boundary arguments in debug and release; write probes into spare capacity.", "§4 C04"),
+ "C05": ("exploration", "Small multi-threaded programs on real threads (ledger allocator, seeded delays injected through the H1 hook between the crate's atomic steps) and under Miri's randomised scheduler (many seeds): per-thread value/address assertions plus a post-join trace check (at most one zero-copy exclusive owner, disjoint exclusive regions, storage freed exactly once). Sampled schedules only; the evidence reports distinct interleaving signatures and how often the lost-promotion-race path was seen.", "§4 C05"),
+ "C06": ("exploration", "Happens-before race detection by Miri (weak-memory emulation, vector clocks incl. deallocation, many seeds, with the hook and with the hook compiled out) and by ThreadSanitizer (-Zbuild-std) on the same programs; both follow the orderings written in the source, so a missing Release/Acquire edge is reported on any racy-shaped execution even on x86. Sampled schedules only.", "§4 C06"),
  "C07": ("exploration", "Pointer-arithmetic oracle per zero-copy op plus per-call allocation events from the ledger (no align-1 allocation allowed) over the generated histories.", "§4 C07"),
  "C08": ("exploration", "Three-valued uniqueness oracle (pool + ledger) evaluated on every live Bytes after every op; try_into_mut vs is_unique vs address; reclaim clause probed whenever an empty sole BytesMut exists.", "§4 C08"),
  "C13": ("fault_enumeration", "32 out-of-contract call variants injected at every point of generated histories (exhaustively as first step from 13 start states with every 1-op continuation; randomly in walks), each under catch_unwind with a before/after snapshot of every handle, in debug and release, on the ledger and under ASan; a crash inside such a call is a violation.", "§4 C13"),
@@ -29,6 +31,8 @@ NOTE = {
  "C02": "trusted: ledger allocator implementation, ASan/Miri/valgrind; not covered: code the generators do not reach (32-bit-only promote path, refcount overflow abort)",
  "C03": "trusted: ledger scope tagging (only allocations made during a history are balanced), H2 introspection for stored counts",
  "C04": "trusted: ledger block table; capacity() as reported by the crate is what is checked against it",
+ "C05": "only schedules actually produced are judged; harness adds only spawn/barrier/join synchronisation; hook and log use Relaxed atomics only",
+ "C06": "Miri/TSan happens-before models; interleavings never produced are never judged",
  "C07": "trusted: ledger event window around each call; empty results other than split parts are not constrained",
  "C08": "trusted: pool bookkeeping of which handles are alive; H2 only classifies empty handles that hold no storage",
  "C13": "abort-class requests (allocation failure) are not issued in-process; panic messages are not compared",
@@ -46,6 +50,8 @@ TECH = {
  "C02": "allocator-ledger monitor + ASan + Miri + valgrind over generated op histories",
  "C03": "ledger leak balance, refcount-conservation invariant hook, owner drop monitors, LSan/Miri leak check",
  "C04": "region-disjointness/containment monitor against the allocator ledger; reserve postcondition monitor",
+ "C05": "multi-threaded stress with hook-injected delays + post-join trace checker (ledger); Miri many-seeds",
+ "C06": "happens-before data-race detection: Miri many-seeds (weak memory) + ThreadSanitizer",
  "C07": "pointer-offset oracle + allocation-event monitor",
  "C08": "three-valued uniqueness oracle monitor",
  "C13": "fault injection of out-of-contract calls with snapshot-after-panic monitor (ledger, ASan)",
@@ -58,7 +64,7 @@ TECH = {
  "C14": "exhaustive table-driven differential monitor vs slice semantics",
  "C15": "parse-back / token-stream round-trip monitor",
 }
-ENGINE = {"C14": "cmpfmt", "C15": "cmpfmt", "C09": "bufconf", "C10": "bufconf", "C11": "bufconf", "C12": "bufconf", "C17": "bufconf", "C18": "recycle"}
+ENGINE = {"C05": "conc", "C06": "conc", "C14": "cmpfmt", "C15": "cmpfmt", "C09": "bufconf", "C10": "bufconf", "C11": "bufconf", "C12": "bufconf", "C17": "bufconf", "C18": "recycle"}
 
 checks = []
 for pid in sorted(plans.PLANS):
@@ -91,6 +97,7 @@ m = {
  },
  "engines": [
    {"name": "seqdrive", "path": "harness/src/bin/seqdrive.rs", "serves_properties": ["C01","C02","C03","C04","C07","C08","C13","C16"], "kind_free_text": "op-sequence driver with value model, allocator ledger and per-step monitors"},
+   {"name": "conc", "path": "harness/src/bin/conc.rs", "serves_properties": ["C05","C06"], "kind_free_text": "small multi-threaded programs over shared storage; native stress, TSan, Miri"},
    {"name": "bufconf", "path": "harness/src/bin/bufconf.rs", "serves_properties": ["C09","C10","C11","C12","C17"], "kind_free_text": "Buf/BufMut conformance engine over adapter trees, getter table, fault injection"},
    {"name": "recycle", "path": "harness/src/bin/recycle.rs", "serves_properties": ["C18"], "kind_free_text": "allocation-trend monitor over recycling patterns"},
    {"name": "cmpfmt", "path": "harness/src/bin/cmpfmt.rs", "serves_properties": ["C14","C15"], "kind_free_text": "comparison/hash tables, Debug/hex parse-back, serde token streams"},
